@@ -32,11 +32,40 @@ class Cx:
   def line(self):
     return getattr(self.node, 'lineno', '?')
 
-  def new(self, term, dims, kind='f', owner=FRESH, base=None):
+  def new(self, term, dims, kind='f', owner=FRESH, base=None, vf=None):
     if term is None:
       term = fresh('t', T)
     dims = [z3.IntVal(d) if isinstance(d, int) else d for d in dims]
-    return self.p.new_loc(ArrState(term, Shape(len(dims), dims), kind, owner, base))
+    return self.p.new_loc(ArrState(term, Shape(len(dims), dims), kind, owner, base, vf=vf))
+
+  def vf_of(self, v):
+    """value frame of an index array / index scalar (None when unknown)"""
+    if isinstance(v, VArr):
+      return self.p.store[v.loc].vf
+    if isinstance(v, VTuple) and len(v.items) == 1:
+      return self.vf_of(v.items[0])
+    return getattr(v, 'vf', None)
+
+  def join_vf(self, vs):
+    fs = [self.vf_of(v) for v in vs]
+    if not fs or any(f is None for f in fs):
+      return None
+    for f in fs[1:]:
+      if not z3.simplify(f).eq(z3.simplify(fs[0])):
+        sv = z3.Solver()
+        sv.set(timeout=800)
+        sv.add(*self.p.pc)
+        sv.add(f != fs[0])
+        if sv.check() != z3.unsat:
+          return z3.IntVal(-1)       # indices of different frames mixed in one array: a frame that matches no axis
+    return fs[0]
+
+  def frame_obligation(self, idx, axis_len, what):
+    f = self.vf_of(idx)
+    if f is None:
+      return
+    self.p.side.append(('frame', 'index-frame:L%s' % self.line(), list(self.p.pc), f == axis_len,
+                        '%s: the index values refer to an axis of length %s, the indexed axis has length %s' % (what, f, axis_len)))
 
   def note(self, s):
     s = '%s (line %s)' % (s, self.line())
@@ -190,8 +219,19 @@ class Lib:
       if name == 'values':
         return [(p, VList(list(recv.d.values())))]
     if isinstance(recv, VListRef):
-      if name == 'append':
-        p.lists[recv.lid]['elem'] = args[0]
+      if name in ('append', 'add'):
+        L = dict(p.lists[recv.lid])
+        L['elem'] = args[0]
+        p.lists[recv.lid] = L
+        return [(p, VNone())]
+      if name in ('difference_update', 'update', 'discard', 'remove'):
+        L = dict(p.lists[recv.lid])
+        n = fresh('card', z3.IntSort())
+        p.assume(n >= 0)
+        if name == 'difference_update':
+          p.assume(n <= L['n'])
+        L['n'] = n
+        p.lists[recv.lid] = L
         return [(p, VNone())]
     if isinstance(recv, VList):
       if name == 'append':
